@@ -41,6 +41,9 @@ func ZzC18() {
 	P := 1 + zz.Choice("peers", zz.Param("P", 2))
 	chunks := []int{1, 2, 3, 5, 64}
 	chunk := chunks[zz.Choice("chunk", zz.Param("CHUNKS", 3))]
+	if zz.Param("BIGCHUNK", 0) == 1 {
+		chunk = 64 // the whole range fits into one initial request
+	}
 	env := zzNewRangeEnv(N, P, chunk)
 	from := env.chain[0]
 	maxLen := 3 * chunk
